@@ -7,10 +7,14 @@ instances that share ONE file in a per-case directory, and against a reference m
 
 History clause: after every operation a FRESH instance per namespace must read exactly
 the model, other namespaces' raw JSON must be untouched, and the file must parse as a
-JSON object of objects.
+JSON object of objects.  Operations may also be made together (`burst`: asyncio.gather of
+2..3 mutators, nothing awaited in between); the store must then hold the result of applying
+them in some order.  Cases with location 'appdir' make their stores WITHOUT a file name
+(the per-user data directory is redirected into the case directory).
 
 Crash clause (fault enumeration): the file-system calls `JsonKeyStore.save` makes
-(`os.mkdir` below `Path.mkdir`, `open` as seen from `bumble.keys`, the file's
+(`os.mkdir` below `Path.mkdir`, `open` as seen from `bumble.keys`, from `builtins` and
+from `io` - i.e. also through pathlib, shutil, tempfile -, the file's
 `write`/`flush`/`close`, `os.replace`/`os.rename`, `os.unlink`) are wrapped with a step
 counter.  Each mutating operation is first run un-crashed to count its N steps; then for
 EVERY k in 0..N the pre-state directory is restored and the operation re-run with a
@@ -20,9 +24,14 @@ generated prefix of the data buffered so far reaches the file that was open).
 
 from __future__ import annotations
 
+import asyncio
+import builtins
 import copy
+import io
+import itertools
 import json
 import os
+import pathlib
 import shutil
 import traceback
 from unittest import mock
@@ -35,18 +44,29 @@ PROPERTY = 'C15'
 LEVEL = 'fault_enumeration'
 RULE = (
     'histories of update(ns,peer,keys)/delete(ns,peer) absent or aimed at a stored peer/delete_all(ns)/get/get_all/'
-    'get_resolving_keys/reopen(ns)/litter(stale .tmp) over 1..3 namespace handles (explicit names and the '
-    'default namespace = JsonKeyStore(None, file)) sharing one file, 1..4 peers, initial file absent / {} / in a '
-    'missing (nested) directory / pre-seeded with 1-2 foreign namespaces; PairingKeys = any subset of the 6 key '
-    'slots (value 0..32 bytes, authenticated, ediv None/0/0xFFFF, rand None/8 bytes), address_type None/0..3, '
-    'link_key_type None/0..8. After every op: fresh instance per namespace == dict model, raw JSON of other '
-    'namespaces unchanged, file is an object of objects. Every mutating op: its N file-system steps are counted, '
-    'then a process death is injected at EVERY k in 0..N on the restored pre-state (prefix of buffered data '
+    'get_resolving_keys/reopen(ns)/litter(stale .tmp)/burst(2..3 mutating ops made together with asyncio.gather, on '
+    'one handle, on handles of different namespaces, or on two handles bound to one namespace) over 1..3 namespace '
+    'handles (explicit names and the default namespace = JsonKeyStore(None, file)) sharing one file, 1..4 peers, '
+    'initial file absent / {} / in a missing (nested) directory / pre-seeded with 1-2 foreign namespaces; location '
+    '"file" (explicit file name) or "appdir" (NO file name: <user data dir>/Pairing/<sanitised namespace>.json with '
+    'the data dir redirected into the case directory and not existing yet; namespaces shaped like str(Address) '
+    'with ":" and "/P", the default namespace, and names the sanitising maps onto one file); PairingKeys = any subset '
+    'of the 6 key slots (value 0..32 bytes, authenticated, ediv None/0/1/0xFF/0x100/0xFFFF/any 16-bit, rand None/'
+    "b''/8 bytes/8 zero bytes/0..16 bytes), address_type None/every member of hci.AddressType (0..3, 254, 255), "
+    'link_key_type None/0..8/255. After every op: fresh instance per namespace == dict model, raw JSON of other '
+    'namespaces unchanged, file is an object of objects. After a burst: the same, against the result of applying its '
+    'operations in SOME order (all permutations tried; a delete that raised must have found its peer absent at its '
+    'turn), and every participating instance reads that result. Every singly made mutating op: its N file-system '
+    'steps are counted (open() is wrapped for bumble.keys, builtins and io, so pathlib/shutil/tempfile spellings are '
+    'steps too), then a process death is injected at EVERY k in 0..N on the restored pre-state (prefix of buffered data '
     'reaches the open file), main file bytes must equal pre or post bytes, fresh instances read that model, and '
     'the same op retried on the crashed directory (stale .tmp present) succeeds. '
     'roundtrip: exhaustive 64 slot subsets x 5 address types x 10 link-key types, single update + merge. '
-    'non-trivial = >=2 namespaces in the file, or a reopen, or a crash point inside the write phase; '
-    'distinct by (namespaces, initial state, operation sequence).'
+    'directed: 36 (EDIV, Rand) edge pairs on all six slots + all address types; 54 bursts = ordered pairs of mutating '
+    'ops x handle relation x same/different peer, re-made in the opposite order; 26 appdir histories (13 namespace '
+    'lists x absent/pre-seeded). '
+    'non-trivial = >=2 namespaces in the file, or a reopen, or a burst, or a crash point inside the write phase; '
+    'distinct by (location, namespaces, initial state, operation sequence).'
 )
 ASSUMPTIONS = [
     'update() merges: non-None fields of the new PairingKeys overlay the stored entry, each key slot is replaced '
@@ -57,7 +77,15 @@ ASSUMPTIONS = [
     'mutating op leaves an empty namespace object in the file is left open',
     'process death is modelled inside the harness process: user-space buffers are lost except a generated prefix; '
     'power loss / fsync ordering is not modelled; a stale .tmp after a crash is allowed',
-    'JsonKeyStore methods never really suspend; they are run to completion on the virtual loop',
+    'store methods are run to completion on the virtual loop; it is NOT assumed that they never suspend: operations '
+    'made together (burst) must still all take effect, in some order. Inside a burst the default handle is only used '
+    'when the namespace it binds to does not depend on which operation reaches the file first (otherwise its '
+    'operations are redirected to the first explicit handle); no process death is injected inside a burst',
+    'without a file name, which namespaces share a file and where the file lies are not judged: the file is '
+    'whatever the first handle reports as .filename (it must lie below the redirected data directory, else '
+    'harness error), handles that report another file are left out of the case, and fresh instances are made the '
+    'same way (JsonKeyStore(namespace))',
+    "Rand is bytes | None and EDIV int | None: b'' and 0 are values and must come back as such",
 ]
 SHRINK_KEYS = ('ops',)
 
@@ -66,6 +94,10 @@ NS_POOL = [None, 'F0:F1:F2:F3:F4:F5', 'hci-1', 'Zeta/ns two']
 PEERS = ['C4:11:22:33:44:01', 'C4:11:22:33:44:02/P', 'E5:00:00:00:00:03', '00:1B:DC:F2:1C:48/P']
 DEFAULT = '__DEFAULT__'
 FOREIGN = ['zz-foreign', 'AA:BB:CC:DD:EE:FF']
+# without a file name (location 'appdir'): namespaces as JsonKeyStore.from_device makes them (str(Address): ':' and,
+# for public addresses, '/P'), and names that the sanitising maps onto one file
+APP_SINGLE = [None, 'F0:F1:F2:F3:F4:F5/P', 'F0:F1:F2:F3:F4:F5', 'hci-1', 'Zeta/ns two', 'keys']
+APP_COLLIDING = ['F0:F1:F2:F3:F4:F5/P', 'f0-f1-f2-f3-f4-f5-p', 'F0-F1:F2-F3:f4:f5/p']
 INITIALS = ['absent', 'empty', 'subdir', 'subdir2', 'seeded1', 'seeded2']
 SEED_ENTRY_RAW = {
     'address_type': 0,
@@ -74,6 +106,9 @@ SEED_ENTRY_RAW = {
     'ltk': {'authenticated': False, 'value': 'd1897ee10016eb1a08e4e037fd54c683', 'ediv': 7, 'rand': '0102030405060708'},
 }
 MUTATING = ('update', 'delete', 'delete_all')
+
+
+_REAL_OPEN = builtins.open  # taken before any wrapper is installed
 
 
 class Crash(BaseException):
@@ -106,6 +141,11 @@ class FileProxy:
 
     def __getattr__(self, name):
         return getattr(self.real, name)
+
+    def fileno(self):
+        # no descriptor-level short cuts (shutil's sendfile path, os.write): the data has to come through
+        # write(), where it is a counted step
+        raise io.UnsupportedOperation('fileno')
 
     def _push(self):
         for chunk in self.pending:
@@ -153,7 +193,7 @@ class Injector:
         self.dead = False
         self.open_files: list[FileProxy] = []
         self._patches = []
-        self.real_open = open
+        self.real_open = _REAL_OPEN
         self.real = {name: getattr(os, name) for name in ('mkdir', 'replace', 'rename', 'unlink', 'remove')}
 
     # -- arming ---------------------------------------------------------------
@@ -229,6 +269,11 @@ class Injector:
 
         self._patches = [
             mock.patch.object(bumble.keys, 'open', self._open, create=True),
+            # the same wrapper behind every other spelling of "open for writing" (pathlib.Path.open / write_text /
+            # write_bytes go through io.open; shutil, tempfile and other modules through builtins.open / io.open):
+            # a store that publishes its file some other way still has all of its steps counted
+            mock.patch.object(builtins, 'open', self._open),
+            mock.patch.object(io, 'open', self._open),
             mock.patch.object(os, 'mkdir', self._wrap('mkdir', 'mkdir')),
             mock.patch.object(os, 'replace', self._wrap('replace', 'replace')),
             mock.patch.object(os, 'rename', self._wrap('rename', 'replace')),
@@ -492,13 +537,60 @@ def run_history(ctx, case, with_sample: bool = True) -> None:
     ops = [tuple(o) for o in case['ops']]
     crash_mode = case.get('crash', 'all')  # 'all' | 'none' | 'last'
 
+    location = case.get('location', 'file')  # 'file': explicit filename | 'appdir': JsonKeyStore(ns), no filename
+
     _case_counter[0] += 1
-    root = os.path.join(ctx.outdir('ks'), f'case{os.getpid()}_{_case_counter[0]}')
+    root = os.path.realpath(os.path.join(ctx.outdir('ks'), f'case{os.getpid()}_{_case_counter[0]}'))
     shutil.rmtree(root, ignore_errors=True)
     os.makedirs(root)
-    sub = {'subdir': 'sub', 'subdir2': os.path.join('sub', 'deep')}.get(initial, '')
-    path = os.path.join(root, sub, 'keys.json')
+    app_patches = []
+    if location == 'appdir':
+        # The configuration of JsonKeyStore.from_device() without a file name: one file per (sanitised) namespace
+        # below the per-user data directory, which is redirected into the case directory and does not exist yet.
+        import platformdirs
+
+        appbase = os.path.join(root, 'home', 'share', 'Bumble')
+        app_patches = [
+            mock.patch.object(platformdirs, 'user_data_path', lambda *a, **k: pathlib.Path(appbase)),
+            mock.patch.object(platformdirs, 'user_data_dir', lambda *a, **k: appbase),
+        ]
+        for p in app_patches:
+            p.start()
+        try:
+            probes = [JsonKeyStore(ns) for ns in namespaces]
+        except Exception:
+            for p in app_patches:
+                p.stop()
+            shutil.rmtree(root, ignore_errors=True)
+            raise
+        where_to = [os.path.abspath(str(s.filename)) for s in probes]
+        if any(not w.startswith(root + os.sep) for w in where_to):
+            for p in app_patches:
+                p.stop()
+            shutil.rmtree(root, ignore_errors=True)
+            raise HarnessBug(f'a store without file name escapes the redirected data directory: {where_to}')
+        # handles whose namespace maps to another file than the first one's are left out: this harness follows
+        # one file per case (which names share a file is not part of the property)
+        kept = [ns for ns, w in zip(namespaces, where_to) if w == where_to[0]]
+        split = len(kept) != len(namespaces)
+        namespaces = kept
+        path = where_to[0]
+        if initial not in ('absent', 'empty', 'seeded1', 'seeded2'):
+            initial = 'absent'
+        if initial != 'absent':
+            os.makedirs(os.path.dirname(path))
+    else:
+        split = False
+        sub = {'subdir': 'sub', 'subdir2': os.path.join('sub', 'deep')}.get(initial, '')
+        path = os.path.join(root, sub, 'keys.json')
     tmp_path = path + '.tmp'
+    handle_names = set(namespaces)
+
+    def mk(ns):
+        """A new instance the way the case's handles are made (other namespaces of the file: by file name)."""
+        if location == 'appdir' and ns in handle_names:
+            return JsonKeyStore(ns)
+        return JsonKeyStore(ns, path)
 
     model: dict[str, dict[str, dict]] = {}
     if initial == 'empty':
@@ -519,7 +611,15 @@ def run_history(ctx, case, with_sample: bool = True) -> None:
             model[FOREIGN[i]] = {PEERS[i]: copy.deepcopy(entry)}
 
     labels = set()
-    counts = {'points': 0, 'write': 0, 'replace': 0, 'mkdir': 0, 'open': 0, 'close': 0, 'end': 0, 'other': 0, 'ops': 0}
+    if location == 'appdir':
+        labels.add('appdir')
+        if any(n is not None and '/' in n for n in namespaces):
+            labels.add('appdir_namespace_with_slash')
+        if len(namespaces) >= 2:
+            labels.add('appdir_shared_file')
+        if split:
+            labels.add('appdir_split_files')
+    counts = {'points': 0, 'write': 0, 'replace': 0, 'mkdir': 0, 'open': 0, 'close': 0, 'end': 0, 'other': 0, 'ops': 0, 'burst': 0}
     nontrivial = False
     inj = Injector()
     inj.install()
@@ -531,6 +631,7 @@ def run_history(ctx, case, with_sample: bool = True) -> None:
             'namespaces': namespaces,
             'npeers': len(peers),
             'initial': initial,
+            'location': location,
             'cuts': cuts,
             'crash': 'last' if crash else 'none',
             'ops': ops[: step + 1],
@@ -565,7 +666,7 @@ def run_history(ctx, case, with_sample: bool = True) -> None:
 
     def read_all(ns):
         """Fresh instance -> {peer: entry} or (None, problem)."""
-        got, exc = call(lambda: JsonKeyStore(ns, path).get_all())
+        got, exc = call(lambda: mk(ns).get_all())
         if exc is not None:
             return None, ('read_raises/get_all/' + site_of(exc), f'get_all() of a fresh instance raised {exc!r}')
         out = {}
@@ -586,24 +687,26 @@ def run_history(ctx, case, with_sample: bool = True) -> None:
             }[status]
             return (f'file/{status}', f'the key file {words} (it starts with {read_bytes(path)[:40]!r})'), None
         # non-empty namespaces of model and file must coincide; every namespace reads as the model says
+        # (`target`: the namespace the operation was aimed at, or the set of them for a burst)
+        targets = target if isinstance(target, (set, frozenset)) else {target}
         names = set(expect) | set(db) | {n for n in namespaces if n is not None}
         for ns in sorted(names):
             want = expect.get(ns, {})
             if want and ns not in db:
-                clause = 'state' if ns == target else 'isolation'
+                clause = 'state' if ns in targets else 'isolation'
                 return (f'{clause}/namespace_lost', f'namespace {ns!r} with {len(want)} peer(s) is gone from the file'), None
             got, problem = read_all(ns)
             if got is None:
                 return problem, None
             d = diff_map(want, got)
             if d is not None:
-                clause = 'state' if ns == target else 'isolation'
+                clause = 'state' if ns in targets else 'isolation'
                 return (f'{clause}/{d[0]}', f'namespace {ns!r}: {d[1]}'), None
         # raw JSON of the other namespaces is untouched
         if prior_db is not None:
             for ns, raw in prior_db.items():
-                if ns != target and raw and db.get(ns) != raw:
-                    return ('isolation/raw_changed', f'raw JSON of namespace {ns!r} changed by an operation on {target!r}'), None
+                if ns not in targets and raw and db.get(ns) != raw:
+                    return ('isolation/raw_changed', f'raw JSON of namespace {ns!r} changed by an operation on {sorted(targets)!r}'), None
         # the default view
         dns, _ = resolve(None, list(db))
         got, problem = read_all(None)
@@ -614,8 +717,110 @@ def run_history(ctx, case, with_sample: bool = True) -> None:
             return (f'default_view/{d[0]}', f'default namespace should read {dns!r}: {d[1]}'), None
         return None, db
 
+    def do_burst(step, op):
+        """2..3 mutating operations made together (asyncio.gather): none is awaited before the next one is made.
+        What the store holds afterwards must be the result of applying all of them in SOME order."""
+        nonlocal model, cur_db
+        subs = [tuple(x) for x in op[1]][:3]
+        if len(subs) < 2 or any(x[0] not in MUTATING for x in subs):
+            raise HarnessBug(f'bad burst {op!r}')
+        keys0 = sorted(cur_db)
+        hs = [int(x[1]) % len(namespaces) for x in subs]
+        explicit = sorted({namespaces[h] for h in hs if namespaces[h] is not None})
+        bound = resolve(None, keys0)[0]
+        if any(namespaces[h] is None for h in hs) and not all(
+            resolve(None, sorted(set(keys0) | set(extra)))[0] == bound
+            for r in range(len(explicit) + 1)
+            for extra in itertools.combinations(explicit, r)
+        ):
+            # which namespace the default handle binds to would depend on which operation of the burst reaches
+            # the file first (and on whether it leaves an empty namespace, which is open): its operations go to
+            # the first explicit handle instead
+            first_explicit = next(i for i, n in enumerate(namespaces) if n is not None)
+            hs = [first_explicit if namespaces[h] is None else h for h in hs]
+            labels.add('burst_default_redirected')
+        plan = []
+        for x, h in zip(subs, hs):
+            target = resolve(namespaces[h], keys0)[0]
+            peer = peers[int(x[2]) % len(peers)] if x[0] in ('update', 'delete') else None
+            if x[0] == 'delete' and len(x) > 3 and x[3] == 'stored' and model.get(target):
+                stored = sorted(model[target])
+                peer = stored[int(x[2]) % len(stored)]
+            plan.append((x[0], h, target, peer, x, make_pairing_keys(x[3]) if x[0] == 'update' else None))
+            if x[0] == 'update':
+                labels.update(value_labels(x[3]))
+        said = ', '.join(f'{k}({namespaces[h]!r}{"" if peer is None else ", " + peer})' for k, h, _t, peer, _x, _k in plan)
+
+        def one(item):
+            k, h, _t, peer, _x, keys_obj = item
+            if k == 'update':
+                return stores[h].update(peer, keys_obj)
+            if k == 'delete':
+                return stores[h].delete(peer)
+            return stores[h].delete_all()
+
+        async def together():
+            return await asyncio.gather(*[one(item) for item in plan], return_exceptions=True)
+
+        results, exc = call(together)
+        if exc is not None:
+            fail(f'raises/burst/{site_of(exc)}', f'{said} made together raised {exc!r}', step)
+        for item, r in zip(plan, results):
+            if isinstance(r, BaseException) and item[0] != 'delete':
+                fail(f'raises/burst/{item[0]}/{site_of(r)}', f'{said} made together: {item[0]} raised {r!r}', step)
+        # every order of applying them (a delete that raised must have found its peer absent at its turn)
+        candidates = []
+        for perm in itertools.permutations(range(len(plan))):
+            m = copy.deepcopy(model)
+            for i in perm:
+                k, _h, target, peer, x, _k = plan[i]
+                if k == 'delete' and isinstance(results[i], BaseException) and peer in m.get(target, {}):
+                    break
+                apply_op(m, target, x, peer)
+            else:
+                if m not in candidates:
+                    candidates.append(m)
+        if not candidates:
+            r = next(r for r in results if isinstance(r, BaseException))
+            fail(f'raises/burst/delete/{site_of(r)}', f'{said} made together: the delete of a stored peer raised {r!r}', step)
+        targets = frozenset(item[2] for item in plan)
+        first_problem, chosen, db = None, None, None
+        for m in candidates:
+            problem, db = check_state(m, cur_db, targets)
+            if problem is None:
+                chosen = m
+                break
+            first_problem = first_problem or problem
+        if chosen is None:
+            fail(
+                f'burst/{first_problem[0]}',
+                f'{said} made together without awaiting one before making the next: no order of applying them gives '
+                f'what the store holds afterwards; against the order of the calls: {first_problem[1]}',
+                step,
+            )
+        for h in sorted({item[1] for item in plan}):
+            got, exc2 = call(lambda: stores[h].get_all())
+            if exc2 is not None:
+                fail(f'raises/get_all/{site_of(exc2)}', f'get_all after a burst raised {exc2!r}', step)
+            t = resolve(namespaces[h], list(db))[0]
+            d = diff_map(chosen.get(t, {}), {name: norm_pairing_keys(pk) for name, pk in got})
+            if d is not None:
+                fail(f'same_instance/{d[0]}/burst', f'get_all of an instance that took part in {said}: {d[1]}', step)
+        labels.add('burst')
+        labels.add('burst_multi_namespace' if len(targets) >= 2 else 'burst_same_namespace')
+        if len({item[1] for item in plan}) >= 2 and len(targets) < len({item[1] for item in plan}):
+            labels.add('burst_two_handles_one_namespace')
+        if len(candidates) >= 2:
+            labels.add('burst_order_matters')
+        if any(isinstance(r, BaseException) for r in results):
+            labels.add('burst_delete_absent_raises')
+        counts['ops'] += len(plan)
+        counts['burst'] += 1
+        model = chosen
+        cur_db = db
+
     try:
-        stores = [JsonKeyStore(ns, path) for ns in namespaces]
+        stores = [mk(ns) for ns in namespaces]
         status, cur_db = parse_file()
         if cur_db is None:
             raise HarnessBug('initial file broken')
@@ -626,6 +831,14 @@ def run_history(ctx, case, with_sample: bool = True) -> None:
                 fail(f'{problem[0]}/foreign_file', f'reading a pre-existing file: {problem[1]}', -1)
         for step, op in enumerate(ops):
             kind = op[0]
+            if kind == 'burst':
+                do_burst(step, op)
+                nontrivial = True
+                if len(cur_db) >= 2:
+                    labels.add('multi_namespace_file')
+                    if sum(1 for v in cur_db.values() if v) >= 2:
+                        labels.add('multi_namespace_nonempty')
+                continue
             if kind == 'litter':
                 # a stale temp file as a crash of an earlier process would have left it
                 main = read_bytes(path) or b'{\n    "trunc'
@@ -657,6 +870,7 @@ def run_history(ctx, case, with_sample: bool = True) -> None:
                 if kind == 'update':
                     keys_obj = make_pairing_keys(op[3])
                     labels.add('update_merge' if present else 'update_new')
+                    labels.update(value_labels(op[3]))
                     make = lambda s=store: s.update(peer, keys_obj)  # noqa: E731
                 elif kind == 'delete':
                     labels.add('delete_present' if present else 'delete_absent')
@@ -697,7 +911,7 @@ def run_history(ctx, case, with_sample: bool = True) -> None:
                 if d is not None:
                     fail(f'same_instance/{d[0]}/{where}', f'get_all of the instance that did the {kind}: {d[1]}', step)
                 if peer is not None:
-                    got, exc2 = call(lambda: JsonKeyStore(ns, path).get(peer))
+                    got, exc2 = call(lambda: mk(ns).get(peer))
                     if exc2 is not None:
                         fail(f'raises/get/{site_of(exc2)}', f'get after {kind} raised {exc2!r}', step)
                     want_entry = post_model.get(target, {}).get(peer)
@@ -713,6 +927,8 @@ def run_history(ctx, case, with_sample: bool = True) -> None:
                 if do_crash and n_steps:
                     if 'mkdir' in kinds:
                         labels.add('crash_at_mkdir')
+                        if location == 'appdir':
+                            labels.add('appdir_crash_at_mkdir')
                     for k in range(n_steps + 1):
                         phase = kinds[k] if k < n_steps else 'end'
                         restore(root, pre_snap)
@@ -793,7 +1009,7 @@ def run_history(ctx, case, with_sample: bool = True) -> None:
                 cur_db = db
             else:
                 if kind == 'reopen':
-                    stores[h] = store = JsonKeyStore(ns, path)
+                    stores[h] = store = mk(ns)
                     labels.add('reopen')
                     nontrivial = True
                 elif kind == 'get':
@@ -849,18 +1065,21 @@ def run_history(ctx, case, with_sample: bool = True) -> None:
         labels.add('case_failed')
     finally:
         inj.uninstall()
+        for p in app_patches:
+            p.stop()
         loop.shutdown()
         shutil.rmtree(root, ignore_errors=True)
 
     for key, v in counts.items():
-        name = 'sum_crash_points' if key == 'points' else ('sum_mutating_ops' if key == 'ops' else f'sum_crash_points_{key}')
+        name = {'points': 'sum_crash_points', 'ops': 'sum_mutating_ops', 'burst': 'sum_bursts'}.get(key, f'sum_crash_points_{key}')
         ctx.extra[name] = ctx.extra.get(name, 0) + v
     ctx.case(
-        ('h', namespaces, len(peers), initial, ops),
+        ('h', namespaces, len(peers), initial, ops) if location == 'file' else ('h', location, namespaces, len(peers), initial, ops),
         nontrivial,
         labels,
         sample=(
-            {'namespaces': namespaces, 'peers': len(peers), 'initial': initial, 'ops': [brief(o) for o in ops[:8]]}
+            {'namespaces': namespaces, 'peers': len(peers), 'initial': initial, 'location': location,
+             'ops': [brief(o) for o in ops[:8]]}
             if with_sample
             else None
         ),
@@ -868,6 +1087,8 @@ def run_history(ctx, case, with_sample: bool = True) -> None:
 
 
 def brief(op):
+    if op[0] == 'burst':
+        return ['burst', [brief(tuple(x)) for x in op[1]]]
     if op[0] == 'update':
         return ['update', op[1], op[2], sorted(k for k, v in op[3].items() if v is not None)]
     return list(op)
@@ -876,28 +1097,89 @@ def brief(op):
 # ---------------------------------------------------------------------------
 # generators
 # ---------------------------------------------------------------------------
+EDIV_EDGES = [None, 0, 1, 0xFF, 0x100, 0xFFFF]
+RAND_EDGES = [None, b'', bytes(8), bytes(range(0xF0, 0xF8)), b'\x00', bytes(range(16))]
+
+
 def key_strategy():
     return st.fixed_dictionaries(
         {
             'value': st.one_of(st.binary(min_size=16, max_size=16), st.binary(min_size=0, max_size=32)),
             'authenticated': st.booleans(),
-            'ediv': st.sampled_from([None, 0, 0xFFFF]),
-            'rand': st.one_of(st.none(), st.binary(min_size=8, max_size=8)),
+            # EDIV is any 16-bit number; Rand is `bytes | None`: the empty string and the all-zero value (what LE
+            # Secure Connections stores) are values, not "absent"
+            'ediv': st.one_of(
+                st.sampled_from([None, 0, 0xFFFF]),
+                st.sampled_from([None, 0, 0xFFFF]),
+                st.sampled_from(EDIV_EDGES),
+                st.integers(0, 0xFFFF),
+            ),
+            'rand': st.one_of(
+                st.none(),
+                st.binary(min_size=8, max_size=8),
+                st.binary(min_size=8, max_size=8),
+                st.sampled_from(RAND_EDGES),
+                st.binary(min_size=0, max_size=16),
+            ),
         }
     )
 
 
 def keys_strategy():
     optional = {slot: key_strategy() for slot in KEY_SLOTS}
-    optional['address_type'] = st.integers(0, 3)
-    optional['link_key_type'] = st.integers(0, 8)
+    # every member of hci.AddressType (0..3, 254 unable-to-resolve, 255 anonymous)
+    optional['address_type'] = st.one_of(st.integers(0, 3), st.integers(0, 3), st.sampled_from([254, 255]))
+    optional['link_key_type'] = st.one_of(st.integers(0, 8), st.integers(0, 8), st.sampled_from([255]))
     return st.fixed_dictionaries({}, optional=optional)
+
+
+def value_labels(kd) -> set:
+    """Classes of field values an update carries (floors keep them from vanishing)."""
+    out = set()
+    for field, v in kd.items():
+        if v is None:
+            continue
+        if field in KEY_SLOTS:
+            rand, ediv = v.get('rand'), v.get('ediv')
+            if rand is not None:
+                rand = bytes(rand)
+                if rand == b'':
+                    out.add('rand_empty')
+                elif not any(rand):
+                    out.add('rand_all_zero')
+                if len(rand) not in (0, 8):
+                    out.add('rand_other_length')
+            if ediv is not None and ediv not in (0, 0xFFFF):
+                out.add('ediv_other_value')
+            if ediv == 0 and rand is not None and len(rand) == 8 and not any(rand):
+                out.add('ediv_rand_zero')
+        elif field == 'address_type' and int(v) >= 254:
+            out.add('address_type_254_255')
+        elif field == 'link_key_type' and int(v) > 8:
+            out.add('link_key_type_above_8')
+    return out
 
 
 def history_strategy(min_ops: int, max_ops: int, profile: str):
     h = st.integers(0, 2)
     p = st.integers(0, 3)
     upd = st.tuples(st.just('update'), h, p, keys_strategy())
+    # 2..3 mutating operations made together (asyncio.gather), on the same or on different handles
+    burst = st.tuples(
+        st.just('burst'),
+        st.lists(
+            st.one_of(
+                upd,
+                upd,
+                upd,
+                st.tuples(st.just('delete'), h, p),
+                st.tuples(st.just('delete'), h, p, st.just('stored')),
+                st.tuples(st.just('delete_all'), h),
+            ),
+            min_size=2,
+            max_size=3,
+        ),
+    )
     op = st.one_of(
         upd,
         upd,
@@ -910,14 +1192,18 @@ def history_strategy(min_ops: int, max_ops: int, profile: str):
         st.tuples(st.just('resolving'), h),
         st.tuples(st.just('reopen'), h),
         st.tuples(st.just('litter'), st.integers(0, 1000)),
+        burst,
+        burst,
     )
-    def cases(namespaces, initial):
+
+    def cases(namespaces, initial, location='file'):
         return st.fixed_dictionaries(
             {
                 'kind': st.just('history'),
                 'namespaces': namespaces,
                 'npeers': st.integers(1, 4),
                 'initial': initial,
+                'location': st.just(location),
                 'cuts': st.lists(st.integers(0, 1000), min_size=1, max_size=4),
                 'crash': st.just('all'),
                 'ops': st.lists(op, min_size=min_ops, max_size=max_ops),
@@ -938,6 +1224,20 @@ def history_strategy(min_ops: int, max_ops: int, profile: str):
                 st.sampled_from(NS_POOL[1:]).flatmap(lambda x: st.permutations([None, x])),
             ),
             st.sampled_from(['seeded1', 'seeded1', 'absent', 'subdir']),
+        )
+    if profile == 'appdir':
+        # no file name: the file is <user data dir>/Pairing/<sanitised namespace>.json. One handle of any name, or
+        # several whose names fall on the same file (the property is about what they read back, not about which
+        # names share a file: handles that land elsewhere are dropped by run_history)
+        return cases(
+            st.one_of(
+                st.sampled_from(APP_SINGLE).map(lambda x: [x]),
+                st.lists(st.sampled_from(APP_COLLIDING), min_size=2, max_size=3, unique=True),
+                st.permutations([None, 'keys']),
+                st.just([None, 'KEYS']),
+            ),
+            st.sampled_from(['absent', 'absent', 'absent', 'empty', 'seeded1']),
+            location='appdir',
         )
     return cases(
         st.lists(st.sampled_from(NS_POOL), min_size=1, max_size=3, unique=True), st.sampled_from(INITIALS)
@@ -976,6 +1276,139 @@ def roundtrip_case(i: int) -> dict:
     }
 
 
+def _dkey(seed: int, n: int = 16, authenticated: bool = False, ediv=None, rand=None) -> dict:
+    return {
+        'value': bytes((seed * 29 + j * 13 + 5) & 0xFF for j in range(n)),
+        'authenticated': authenticated,
+        'ediv': ediv,
+        'rand': rand,
+    }
+
+
+N_VALUE_CASES = len(EDIV_EDGES) * len(RAND_EDGES)
+
+
+def values_case(i: int) -> dict:
+    """Directed field values: every (EDIV, Rand) pair of the edge lists on all six key slots, written, read back,
+    overwritten by the next pair (a slot is replaced as a whole), read by a re-opened store; address types over all
+    members of hci.AddressType, link-key types 0 / 8 / 255."""
+    ediv, rand = EDIV_EDGES[i // len(RAND_EDGES)], RAND_EDGES[i % len(RAND_EDGES)]
+    j = (i + 7) % N_VALUE_CASES
+    ediv2, rand2 = EDIV_EDGES[j // len(RAND_EDGES)], RAND_EDGES[j % len(RAND_EDGES)]
+    first = {slot: _dkey(i + n, (i + 5 * n) % 33, bool((i + n) & 1), ediv, rand) for n, slot in enumerate(KEY_SLOTS)}
+    first['address_type'] = [0, 1, 2, 3, 254, 255][i % 6]
+    first['link_key_type'] = [0, 8, 255][i % 3]
+    second = {slot: _dkey(i + n + 50, 16, bool((i + n) & 2), ediv2, rand2) for n, slot in enumerate(KEY_SLOTS) if n % 2 == i % 2}
+    second['address_type'] = [255, 254, 3, 2, 1, 0][i % 6]
+    return {
+        'kind': 'history',
+        'namespaces': ['F0:F1:F2:F3:F4:F5', None],
+        'npeers': 2,
+        'initial': 'absent',
+        'cuts': [500],
+        'crash': 'none',
+        'ops': [
+            ('update', 0, 0, first),
+            ('get', 0, 0),
+            ('resolving', 1),
+            ('update', 1, 1, first),
+            ('update', 0, 0, second),
+            ('reopen', 0),
+            ('get', 0, 0),
+            ('resolving', 0),
+        ],
+    }
+
+
+BURST_RELATIONS = ('same_handle', 'two_namespaces', 'two_handles_one_namespace')
+N_BURST_CASES = len(MUTATING) ** 2 * len(BURST_RELATIONS) * 2
+
+
+def burst_case(i: int) -> dict:
+    """Directed bursts: every ordered pair of mutating operations x (one handle / two handles on two namespaces /
+    two handles bound to one namespace: the default handle adopts the file's only namespace) x (same peer /
+    different peers), on a file where both peers are stored; every fourth case adds a third operation; the same
+    burst is then made in the opposite order of calls after a re-open."""
+    k1, rest = MUTATING[i % 3], i // 3
+    k2, rest = MUTATING[rest % 3], rest // 3
+    relation, same_peer = BURST_RELATIONS[rest % 3], bool(rest // 3)
+    if relation == 'two_handles_one_namespace':
+        namespaces, ha, hb = [None, 'hci-1'], 0, 1
+    else:
+        namespaces, ha, hb = ['F0:F1:F2:F3:F4:F5', 'hci-1'], 0, (0 if relation == 'same_handle' else 1)
+    pa, pb = 0, (0 if same_peer else 1)
+
+    def sub(kind, h, p, n):
+        if kind == 'update':
+            # the two updates set different fields: a lost one cannot be covered by the other
+            if n == 0:
+                return ('update', h, p, {'ltk': _dkey(i, 16, True, 0, bytes(8)), 'address_type': i % 4})
+            return ('update', h, p, {'irk': _dkey(i + n), 'link_key_type': (i + n) % 4})
+        if kind == 'delete':
+            return ('delete', h, p)
+        return ('delete_all', h)
+
+    subs = [sub(k1, ha, pa, 0), sub(k2, hb, pb, 1)]
+    if i % 4 == 0:
+        subs.append(('update', hb, 1 - pb, {'csrk': _dkey(i + 2, 16, True)}))
+    preload = [
+        ('update', 1, 0, {'link_key': _dkey(1), 'link_key_type': 4}),
+        ('update', 1, 1, {'ltk_central': _dkey(2, 16, False, 0xFFFF, bytes(range(8)))}),
+        ('update', 0, 0, {'ltk_peripheral': _dkey(3), 'address_type': 1}),
+        ('update', 0, 1, {'irk': _dkey(4), 'address_type': 0}),
+    ]
+    return {
+        'kind': 'history',
+        'namespaces': namespaces,
+        'npeers': 2,
+        'initial': 'absent',
+        'cuts': [500],
+        'crash': 'none',
+        'ops': preload
+        + [('burst', subs), ('get_all', 0), ('get_all', 1), ('reopen', 0)]
+        + preload[::-1]
+        + [('burst', subs[::-1]), ('get', 0, 0), ('get', 1, 1)],
+    }
+
+
+APP_DIRECTED = (
+    [[x] for x in APP_SINGLE]
+    + [list(APP_COLLIDING), APP_COLLIDING[:2], APP_COLLIDING[1:], [APP_COLLIDING[2], APP_COLLIDING[0]]]
+    + [[None, 'keys'], ['keys', None], [None, 'KEYS']]
+)
+
+
+def appdir_case(i: int) -> dict:
+    """Directed histories of stores made WITHOUT a file name (per-user data directory redirected into the case
+    directory): every namespace list of APP_DIRECTED x (nothing there yet / file already there with a foreign
+    namespace); crash points are enumerated for the operations of the first four lists."""
+    namespaces = APP_DIRECTED[i % len(APP_DIRECTED)]
+    seeded = i // len(APP_DIRECTED)
+    return {
+        'kind': 'history',
+        'namespaces': namespaces,
+        'npeers': 3,
+        'initial': 'seeded1' if seeded else 'absent',
+        'location': 'appdir',
+        'cuts': [0, 500, 1000],
+        'crash': 'all' if i % len(APP_DIRECTED) in (1, 4, 6, 10) and not seeded else 'none',
+        'ops': [
+            ('update', 0, 0, {'ltk': _dkey(i, 16, True, 0, bytes(8)), 'address_type': 1}),
+            ('get', 0, 0),
+            ('update', 1, 1, {'irk': _dkey(i + 1), 'address_type': 0}),
+            ('reopen', 0),
+            ('update', 0, 0, {'link_key': _dkey(i + 2), 'link_key_type': 5}),
+            ('resolving', 1),
+            ('burst', [('update', 0, 2, {'csrk': _dkey(i + 3)}), ('delete', 1, 0)]),
+            ('get_all', 0),
+            ('delete_all', 1),
+            ('update', 0, 1, {'ltk_peripheral': _dkey(i + 4, 16, False, 0xFFFF, bytes(range(8)))}),
+            ('reopen', 1),
+            ('get', 1, 1),
+        ],
+    }
+
+
 # ---------------------------------------------------------------------------
 def run(ctx) -> None:
     vloop.selftest()
@@ -998,10 +1431,27 @@ def run(ctx) -> None:
         done += 1
     ctx.extra['sum_roundtrip_product_cases'] = done
     ctx.extra['roundtrip_product_exhaustive'] = not ctx.quick
-    # every mutating op of every history had ALL of its N+1 crash points tried (none sampled)
+    # every singly made mutating op of every history had ALL of its N+1 crash points tried (none sampled);
+    # the operations inside a burst are made without crash injection
     ctx.extra['crash_points_per_operation_exhaustive'] = True
+    ctx.extra['crash_injected_inside_bursts'] = False
+    # directed families (small: every shard of the thorough tier runs all of them, so that their floors hold per shard)
+    for n, (family, count) in enumerate(
+        (('values', N_VALUE_CASES), ('burst', N_BURST_CASES), ('appdir', 2 * len(APP_DIRECTED)))
+    ):
+        make = (values_case, burst_case, appdir_case)[n]
+        for i in range(count):
+            run_history(ctx, make(i), with_sample=(i == 0))
+        ctx.extra[f'sum_directed_{family}_cases'] = count
     min_ops, max_ops = ctx.pick((3, 12), (6, 30))
-    for profile, quick, thorough in (('multi', 50, 1920), ('adoption', 25, 960), ('general', 50, 1920)):
+    for profile, quick, thorough in (
+        # (60/30/60 instead of 50/25/50: two of thirteen operations are bursts now, which have no crash points;
+        # the number of crash-enumerated operations per run stays what it was)
+        ('multi', 60, 2240),
+        ('adoption', 30, 1120),
+        ('general', 60, 2240),
+        ('appdir', 12, 480),
+    ):
         ctx.hyp(
             profile,
             lambda c: run_history(ctx, c),
@@ -1021,6 +1471,25 @@ def run(ctx) -> None:
     ctx.floor('update_merge', 10)
     ctx.floor('delete_present', 3)
     ctx.floor('delete_absent', 3)
+    # operations made together
+    ctx.floor('burst', 30)
+    ctx.floor('burst_multi_namespace', 10)
+    ctx.floor('burst_same_namespace', 10)
+    ctx.floor('burst_two_handles_one_namespace', 5)
+    ctx.floor('burst_order_matters', 5)
+    # stores without a file name
+    ctx.floor('appdir', 20)
+    ctx.floor('appdir_namespace_with_slash', 5)
+    ctx.floor('appdir_shared_file', 5)
+    ctx.floor('appdir_crash_at_mkdir', 2)
+    # field values
+    ctx.floor('rand_empty', 5)
+    ctx.floor('rand_all_zero', 5)
+    ctx.floor('rand_other_length', 5)
+    ctx.floor('ediv_other_value', 5)
+    ctx.floor('ediv_rand_zero', 3)
+    ctx.floor('address_type_254_255', 5)
+    ctx.floor('link_key_type_above_8', 5)
 
 
 def replay(ctx, case) -> None:
